@@ -197,13 +197,15 @@ def snap18(x):
     if isinstance(x, list):
         return ("list", tuple(snap18(v) for v in x))
     if isinstance(x, (set, frozenset)):
-        out = set()
-        for v in x:
-            if isinstance(v, (int, float)):     # bool too: False == 0 == 0.0
-                out.add(("num", float(v) + 0.0))      # -0.0 == 0.0 collapse too
-            else:
-                out.add(repr(snap18(v)))
-        return ("set", tuple(sorted(map(repr, out))))
+        def in_set(v):
+            # numbers that compare equal (False, 0, 0.0, -0.0, Decimal(0)) are
+            # ONE member of a Python set - also as the magnitude of a quantity
+            if isinstance(v, (int, float)):
+                return ("num", float(v) + 0.0)
+            if type(v).__name__ == "Quantity":
+                return ("Quantity", in_set(v.value), v.units)
+            return repr(snap18(v))
+        return ("set", tuple(sorted({repr(in_set(v)) for v in x})))
     if type(x).__name__ == "Quantity":
         return ("Quantity", snap18(x.value), x.units)
     return snapshot(x)
